@@ -1,12 +1,14 @@
 import GaeaVerif.Model.ShardLayout
 import GaeaVerif.Model.Route
+import GaeaVerif.Model.ShardGo
 /-
   Model of the planning of INSERT / REPLACE on sharded and global tables (C03):
 
   proxy/plan/plan_insert.go  HandleInsertStmt, precheckInsertStmt,
                              handleInsertGlobalSequenceValue,
                              handleInsertColumnNames, handleInsertOnDuplicate,
-                             handleInsertValues, generateGlobalShardingSQLs
+                             handleInsertValues, getInsertShardingValue,
+                             looksLikeNumber, generateGlobalShardingSQLs
   proxy/plan/plan.go         generateMultiShardingSQLs, generateShardingSQLs
                              (in Model/ShardLayout.lean)
 
@@ -15,13 +17,50 @@ import GaeaVerif.Model.Route
   `rule.FindTableIndex(v)` on its value.  A cell of a row is what the parser
   delivers for it: a `*driver.ValueExpr` (literal or NULL), the function call
   `nextval()`, or any other expression node (signed number, arithmetic,
-  function call, column …).  The model is the code after the `fix:` commits
-  d687a71 (non-literal sharding values are rejected) and e8a3dcf (every row
-  must have one value per column); `pinned := true` gives the code before them.
+  function call, column …).  A literal also carries its value as the parser
+  delivers it (`n.Kind()`, `GetInt64/GetUint64/GetString`): the kind decides
+  whether the planner places it at all.  The model is the code after the
+  `fix:` commits d687a71 (non-literal sharding values are rejected), e8a3dcf
+  (every row must have one value per column), 40aac80 (only integer and string
+  literals are placed) and e5ce616 (on a hash rule a string MySQL reads as a
+  number but the rule hashes as text is refused); the switches of `Pin` give
+  the code before them.
   Core Lean only.
 -/
 namespace GaeaVerif.Insert
-open GaeaVerif GaeaVerif.Layout
+open GaeaVerif GaeaVerif.Layout GaeaVerif.ShardGo
+
+/-- which `fix:` commits are *not* yet applied (`{}`: the code as it is now) -/
+structure Pin where
+  /-- before d687a71 / e8a3dcf -/
+  rows : Bool := false
+  /-- before 40aac80 -/
+  lits : Bool := false
+  /-- before e5ce616 -/
+  hashStr : Bool := false
+  deriving DecidableEq, Repr
+
+/-- the code of the repository as it is now -/
+def head : Pin := {}
+/-- the pinned tree -/
+def pinned : Pin := { rows := true, lits := true, hashStr := true }
+
+@[simp] theorem head_rows : head.rows = false := rfl
+@[simp] theorem head_lits : head.lits = false := rfl
+@[simp] theorem head_hashStr : head.hashStr = false := rfl
+
+/-- the value of a `*driver.ValueExpr` that is not NULL, by `n.Kind()` -/
+inductive LitVal where
+  /-- `KindInt64` (also TRUE / FALSE) -/
+  | int (v : Int)
+  /-- `KindUint64` -/
+  | uint (v : Nat)
+  /-- `KindString` / `KindBytes`: the bytes of `GetString()` -/
+  | str (s : GoStr)
+  /-- every other kind: hexadecimal and bit literals (`KindBinaryLiteral`),
+      decimals (`KindMysqlDecimal`), floats (`KindFloat64`) -/
+  | other
+  deriving DecidableEq, Repr
 
 /-- outcome of `rule.FindTableIndex(v)` -/
 inductive Place where
@@ -31,8 +70,9 @@ inductive Place where
   deriving DecidableEq, Repr
 
 inductive Cell where
-  /-- `*driver.ValueExpr` that is not NULL; `txt` is its restored text -/
-  | lit (txt : String) (place : Place)
+  /-- `*driver.ValueExpr` that is not NULL; `txt` is its restored text, `place`
+      the outcome of `FindTableIndex` on what `GetValueExprResult` gives for it -/
+  | lit (txt : String) (val : LitVal) (place : Place)
   /-- `*driver.ValueExpr` of kind NULL -/
   | null
   /-- `*ast.FuncCallExpr` whose name is `nextval` -/
@@ -70,6 +110,9 @@ structure Stmt where
   /-- the table name as written: schema ("" if none) and name -/
   schema : String
   table : String
+  /-- the kind of statement: REPLACE or INSERT, IGNORE, priority, whether an
+      ON DUPLICATE KEY UPDATE clause follows (kept by every rewritten statement) -/
+  flags : String := ""
   deriving Repr, DecidableEq
 
 /-- what the plan reads from the rule of the table -/
@@ -77,6 +120,9 @@ structure TableRule where
   layout : Rule
   /-- `GetShardingColumn()` -/
   shardCol : String
+  /-- `GetType()`: "hash", "mod", "range", "date_year", …, "mycat_murmur" (a
+      linked rule reports the type of its parent) -/
+  ruleType : String := ""
   deriving Repr
 
 /-- the statement sent to one physical table -/
@@ -86,14 +132,16 @@ structure Out where
   /-- the column list of the rewritten statement (lower-cased names, qualifiers removed) -/
   cols : List String
   rows : List Row
+  /-- `newStmt := *p.stmt`: the kind of statement is that of the original -/
+  flags : String := ""
   deriving DecidableEq, Repr
 
 /-- `precheckInsertStmt` (`pinned`: only the first row is compared with the columns) -/
-def precheckInsertStmt (pinned : Bool) (s : Stmt) : R Unit :=
+def precheckInsertStmt (pin : Pin) (s : Stmt) : R Unit :=
   if s.hasSelect then .fail
   else if s.setMode then .ok ()
   else if s.cols.length = 0 then .fail
-  else if pinned then
+  else if pin.rows then
     match s.rows with
     | [] => .panic
     | r :: _ => if s.cols.length ≠ r.length then .fail else .ok ()
@@ -116,7 +164,7 @@ def lastIndex (c : String) : List String → Option Nat
 /-- `seq.NextSeq()` at call number `n`: the new cell, or `none` on error -/
 def nextSeq (q : Seq) (n : Nat) : Option Cell :=
   if q.failAt = some n then none
-  else some (.lit (toString (q.start + n)) (q.places.getD n .err))
+  else some (.lit (toString (q.start + n)) (.int (q.start + n)) (q.places.getD n .err))
 
 /-- `xs[i] = v` on a row -/
 def setCell (row : Row) (i : Nat) (c : Cell) : Row := row.set i c
@@ -203,44 +251,92 @@ def addRow (i : Int) (row : Row) : List (Int × List Row) → List (Int × List 
   | [] => [(i, [row])]
   | (j, rs) :: rest => if j = i then (j, rs ++ [row]) :: rest else (j, rs) :: addRow i row rest
 
+/-! ### `getInsertShardingValue`: which literals the planner asks the rule to place -/
+
+/-- `strconv.ParseUint(s, 10, 64)` -/
+def parseUint64 (s : GoStr) : Option Nat :=
+  match parseUDec s with
+  | some n => if n < 2 ^ 64 then some n else none
+  | none => none
+
+/-- an optional sign in front -/
+def dropSign : GoStr → GoStr
+  | 43 :: r => r
+  | 45 :: r => r
+  | s => s
+
+/-- `looksLikeNumber`: white space, an optional sign, digits with an optional
+    fraction (at least one digit in all), an optional exponent, white space;
+    `strings.Trim(s, " \t\n\v\f\r")` is `trimSpace` -/
+def looksLikeNumber (s : GoStr) : Bool :=
+  let t := dropSign (trimSpace s)
+  let intDigits := t.takeWhile isDigit
+  let r1 := t.dropWhile isDigit
+  let fr : GoStr × GoStr :=
+    match r1 with
+    | 46 :: r => (r.takeWhile isDigit, r.dropWhile isDigit)
+    | _ => ([], r1)
+  if intDigits.length + fr.1.length = 0 then false
+  else
+    match fr.2 with
+    | [] => true
+    | c :: r =>
+      if c = 101 || c = 69 then
+        let r3 := dropSign r
+        !(r3.takeWhile isDigit).isEmpty && (r3.dropWhile isDigit).isEmpty
+      else false
+
+/-- the test of e5ce616 on a string key of a hash rule: a string of digits that
+    `HashValue` reads as a number, or a string MySQL does not read as a number -/
+def hashStringOk (s : GoStr) : Bool := (parseUint64 s).isSome || !looksLikeNumber s
+
+/-- `getInsertShardingValue` gives a value (and not an error) for the literal -/
+def shardingValueOk (pin : Pin) (ruleType : String) : LitVal → Bool
+  | .other => pin.lits
+  | .str s => pin.hashStr || ruleType != "hash" || hashStringOk s
+  | _ => true
+
 /-- the loop of `handleInsertValues` over `stmt.Lists` (VALUES form) -/
-def splitRows (pinned : Bool) (sci : Nat) : List Row → List (Int × List Row) → R (List (Int × List Row))
+def splitRows (pin : Pin) (rt : String) (sci : Nat) : List Row → List (Int × List Row) → R (List (Int × List Row))
   | [], acc => .ok acc
   | row :: rest, acc =>
     match row[sci]? with
     | none => .panic
-    | some (.lit _ (.ok i)) => splitRows pinned sci rest (addRow i row acc)
-    | some (.lit _ .err) => .fail
-    | some (.lit _ .panic) => .panic
+    | some (.lit _ val (.ok i)) =>
+      if shardingValueOk pin rt val then splitRows pin rt sci rest (addRow i row acc) else .fail
+    | some (.lit _ _ .err) => .fail
+    | some (.lit _ val .panic) => if shardingValueOk pin rt val then .panic else .fail
     | some .null => .fail
-    | some _ => if pinned then splitRows pinned sci rest acc else .fail
+    | some _ => if pin.rows then splitRows pin rt sci rest acc else .fail
 
 /-- what `Restore` writes for the statement sent to table `index` -/
 def restoreInsert (t : TableRule) (s : Stmt) (rows : List Row) (index : Int) : R Out :=
   match restoreTableName t.layout s.schema s.table "" index with
-  | .ok (c :: _) => .ok { table := c, cols := s.cols, rows := rows }
+  | .ok (c :: _) => .ok { table := c, cols := s.cols, rows := rows, flags := s.flags }
   | .ok [] => .fail
   | .fail => .fail
   | .panic => .panic
 
 /-- `handleInsertValues` followed by `generateMultiShardingSQLs` -/
-def handleInsertValues (pinned : Bool) (t : TableRule) (s : Stmt) (sci : Nat) : R (List (Target Out)) :=
+def handleInsertValues (pin : Pin) (t : TableRule) (s : Stmt) (sci : Nat) : R (List (Target Out)) :=
   if s.setMode then
     match s.rows with
     | [row] =>
       match row[sci]? with
       | none => .panic
-      | some (.lit _ (.ok i)) =>
-        generateMultiShardingSQLs t.layout (restoreInsert t s) [[row]] (Route.interList t.layout.idxs [i])
-      | some (.lit _ .err) => .fail
-      | some (.lit _ .panic) => .panic
+      | some (.lit _ val (.ok i)) =>
+        if shardingValueOk pin t.ruleType val then
+          generateMultiShardingSQLs t.layout (restoreInsert t s) [[row]] (Route.interList t.layout.idxs [i])
+        else .fail
+      | some (.lit _ _ .err) => .fail
+      | some (.lit _ val .panic) => if shardingValueOk pin t.ruleType val then .panic else .fail
       | some .null => .fail
       | some _ =>
-        if pinned then generateMultiShardingSQLs t.layout (restoreInsert t s) [[row]] t.layout.idxs
+        if pin.rows then generateMultiShardingSQLs t.layout (restoreInsert t s) [[row]] t.layout.idxs
         else .fail
     | _ => .fail
   else
-    match splitRows pinned sci s.rows [] with
+    match splitRows pin t.ruleType sci s.rows [] with
     | .ok groups =>
       generateMultiShardingSQLs t.layout (restoreInsert t s) (groups.map (·.2)) (groups.map (·.1))
     | .fail => .fail
@@ -251,8 +347,8 @@ def generateGlobalShardingSQLs (t : TableRule) (s : Stmt) : R (List (Target Out)
   generateShardingSQLs t.layout (restoreInsert t s s.rows) t.layout.idxs
 
 /-- `HandleInsertStmt` -/
-def handleInsertStmt (pinned : Bool) (t : TableRule) (seq : Option Seq) (s : Stmt) : R (List (Target Out)) :=
-  match precheckInsertStmt pinned s with
+def handleInsertStmt (pin : Pin) (t : TableRule) (seq : Option Seq) (s : Stmt) : R (List (Target Out)) :=
+  match precheckInsertStmt pin s with
   | .fail => .fail
   | .panic => .panic
   | .ok () =>
@@ -269,6 +365,6 @@ def handleInsertStmt (pinned : Bool) (t : TableRule) (seq : Option Seq) (s : Stm
           match handleInsertOnDuplicate t s' with
           | .fail => .fail
           | .panic => .panic
-          | .ok () => handleInsertValues pinned t s' sci
+          | .ok () => handleInsertValues pin t s' sci
 
 end GaeaVerif.Insert
